@@ -93,14 +93,19 @@ Causes(b) ==
     (IF ~IsStunType(U16(b, 1)) \/ SubSeq(b, 5, 8) # MagicCookie THEN {<<"NotStun", -1>>} ELSE {})
     \cup (IF U16(b, 3) + 20 > Len(b) THEN {<<"Truncated", -1>>} ELSE {})
     \cup (IF U16(b, 3) + 20 < Len(b) THEN {<<"TooLarge", -1>>} ELSE {})
-    \cup LET w == Walk(b, 20, <<>>)  as == w.as IN
+    \cup LET w == Walk(b, 20, <<>>)
+             \* an attribute whose 4-byte header is present but whose value or padding is cut still has a type and a
+             \* place in the order: it can be "an attribute after integrity" as well as "truncated"
+             as == IF ~w.tiled /\ w.why # "header"
+                     THEN Append(w.as, [type |-> U16(b, w.at + 1), off |-> w.at, len |-> U16(b, w.at + 3)])
+                     ELSE w.as IN
          (IF ~w.tiled THEN {<<"Truncated", -1>>} ELSE {})
          \cup {<<"AttributeAfterIntegrity", as[i].type>> : i \in {k \in 1..Len(as) :
                  /\ ~ \E j \in 1..(k - 1) : as[j].type = FP
                  /\ \/ (\E j \in 1..(k - 1) : as[j].type \in Integrity) /\ as[k].type \notin Ending
                     \/ as[k].type \in Ending /\ \E j \in 1..(k - 1) : as[j].type = as[k].type}}
          \cup {<<"AttributeAfterFingerprint", as[i].type>> : i \in {k \in 1..Len(as) : \E j \in 1..(k - 1) : as[j].type = FP}}
-         \cup (IF \E i \in 1..Len(as) : as[i].type = FP /\ as[i].len = 4 /\ ~FpOk(b, as[i]) THEN {<<"FingerprintMismatch", -1>>} ELSE {})
+         \cup (IF \E i \in 1..Len(as) : as[i].type = FP /\ as[i].len = 4 /\ AttrEnd(as[i]) <= Len(b) /\ ~FpOk(b, as[i]) THEN {<<"FingerprintMismatch", -1>>} ELSE {})
          \cup (IF \E i \in 1..Len(as) : as[i].type = FP /\ as[i].len # 4
                  THEN {<<"Truncated", -1>>, <<"TooLarge", -1>>, <<"FingerprintMismatch", -1>>, <<"InvalidAttributeData", -1>>} ELSE {})
 
